@@ -408,7 +408,7 @@ def collect(tier, seed):
     rng = random.Random(f"P:{seed}")
     quick = tier == "quick"
     items = [("corpus", t) for t in CORPUS] + [("edge", t) for t in EDGE]
-    nprog = 60 if quick else 600
+    nprog = 40 if quick else 600
     progs = []
     stmts = []
     for i in range(nprog):
@@ -430,7 +430,7 @@ def collect(tier, seed):
             for fn, text in prog.files:
                 t2, _ = respell.respell_text(text, seed * 1000 + i * 10 + k, tables=T)
                 items.append(("respell-prog", t2))
-    per = 40 if quick else 400
+    per = 30 if quick else 400
     for stream in ("valid", "wide", "fault", "mut"):
         for i in range(per):
             g = c08gen.Gen(random.Random(f"P:{seed}:{stream}:{i}"))
@@ -453,14 +453,14 @@ def collect(tier, seed):
                 corpus.append((d, f.read()))
     for d, text in corpus:
         items.append(("practice", text))
-        for k in range(1 if quick else 4):
+        for k in range((1 if len(text) < 6000 else 0) if quick else 4):
             t2, _ = respell.respell_text(text, seed * 77 + k, tables=T)
             items.append(("practice-respell", t2))
         lines = [l for l in text.split("\n") if l.strip()]
         rng.shuffle(lines)
-        items += [("practice-line", l) for l in lines[: (40 if quick else 400)]]
+        items += [("practice-line", l) for l in lines[: (25 if quick else 400)]]
     seeds = [t for s, t in items if s in ("edge", "proggen-stmt", "practice-line") and 0 < len(t) < 80]
-    items += [("fuzz", t) for t in fuzz_texts(rng, 1500 if quick else 20000, seeds)]
+    items += [("fuzz", t) for t in fuzz_texts(rng, 1000 if quick else 20000, seeds)]
     # dedupe, keep first stream name
     seen = set()
     out = []
